@@ -606,3 +606,129 @@ Proof.
   - intros (H1 & H2 & H3 & H4). rewrite E1, H1. split; [unfold Rdiv; ring|].
     split; [apply Rmult_le_reg_l with d; [exact Hd|]; lra|]. split; [apply Rmult_le_pos; lra|]. lra.
 Qed.
+
+(* ------------------------------------------------------------------ G. approximate KKT + strong convexity => near the minimiser (quantitative)
+   x  : the returned point, multipliers lam >= 0, Lagrangian gradient of norm <= eg, possibly slightly infeasible;
+   xs : an exact KKT point (the constrained minimiser) with multipliers lam*;  d = |x - xs|;
+   f mu-strongly convex in the first-order sense at both points, constraints concave in the first-order sense.
+   S = sum lam_i max(c_i(x),0)   (complementarity slack of x),  Vi = sum lam*_i max(-c_i(x),0)  (infeasibility of x weighted by lam*).
+   Then  mu d^2 <= eg d + S + Vi,  hence  d <= (eg + sqrt(eg^2 + 4 mu (S + Vi))) / (2 mu). *)
+Section StrongConvex.
+  Variable V : Type.
+  Variable f : V -> R.
+  Variable df : V -> V -> R.
+  Variables x xs : V.
+
+  Fixpoint comp_slack (l : conlist V) : R :=
+    match l with [] => 0 | (lam, c, _) :: r => lam * Rmax (c x) 0 + comp_slack r end.
+  Fixpoint weighted_violation (l : conlist V) : R :=
+    match l with [] => 0 | (lam, c, _) :: r => lam * Rmax (- c x) 0 + weighted_violation r end.
+  Definition mult_nonneg (l : conlist V) : Prop := List.Forall (fun '(lam, _, _) => 0 <= lam) l.
+
+  Lemma comp_slack_nonneg cons : mult_nonneg cons -> 0 <= comp_slack cons.
+  Proof.
+    induction cons as [|[[lam c] dc] r IH]; intros Hl; cbn [comp_slack]; [lra|].
+    inversion Hl as [|? ? H1 Hl']; subst. cbn beta iota in H1. specialize (IH Hl').
+    pose proof (Rmax_r (c x) 0). assert (0 <= lam * Rmax (c x) 0) by (apply Rmult_le_pos; lra). lra.
+  Qed.
+  Lemma weighted_violation_nonneg cons : mult_nonneg cons -> 0 <= weighted_violation cons.
+  Proof.
+    induction cons as [|[[lam c] dc] r IH]; intros Hl; cbn [weighted_violation]; [lra|].
+    inversion Hl as [|? ? H1 Hl']; subst. cbn beta iota in H1. specialize (IH Hl').
+    pose proof (Rmax_r (- c x) 0). assert (0 <= lam * Rmax (- c x) 0) by (apply Rmult_le_pos; lra). lra.
+  Qed.
+
+  (* at x: multipliers >= 0, constraints concave, xs feasible  =>  <sum lam grad c (x), xs - x> >= -S *)
+  Lemma pairing_lower_at_x cons : mult_nonneg cons -> concave_cons V x cons -> feasible V cons xs ->
+    - comp_slack cons <= lagr_pairing V x cons xs.
+  Proof.
+    induction cons as [|[[lam c] dc] r IH]; intros Hl HC HF; cbn [lagr_pairing comp_slack]; [lra|].
+    inversion Hl as [|? ? H1 Hl']; inversion HC as [|? ? H4 HC']; inversion HF as [|? ? H5 HF']; subst.
+    cbn beta iota in H1, H4, H5. specialize (IH Hl' HC' HF'). specialize (H4 xs).
+    assert (lam * (c xs - c x) <= lam * dc x xs) by (apply Rmult_le_compat_l; lra).
+    assert (lam * c x <= lam * Rmax (c x) 0) by (apply Rmult_le_compat_l; [lra | apply Rmax_l]).
+    assert (0 <= lam * c xs) by (apply Rmult_le_pos; lra). lra.
+  Qed.
+
+  (* at xs: exact KKT rows, constraints concave  =>  <sum lam* grad c (xs), x - xs> >= -Vi *)
+  Lemma pairing_lower_at_xs cons : kkt_rows_exact V xs cons -> concave_cons V xs cons ->
+    - weighted_violation cons <= lagr_pairing V xs cons x.
+  Proof.
+    induction cons as [|[[lam c] dc] r IH]; intros HK HC; cbn [lagr_pairing weighted_violation]; [lra|].
+    inversion HK as [|? ? H123 HK']; inversion HC as [|? ? H4 HC']; subst.
+    cbn beta iota in H123, H4. destruct H123 as (H1 & H2 & H3). specialize (IH HK' HC'). specialize (H4 x).
+    assert (lam * (c x - c xs) <= lam * dc xs x) by (apply Rmult_le_compat_l; lra).
+    assert (lam * (- c x) <= lam * Rmax (- c x) 0) by (apply Rmult_le_compat_l; [lra | apply Rmax_l]). lra.
+  Qed.
+
+  Variables mu eg d : R.
+  Variable cons : conlist V.      (* multipliers / constraints / pairings at x *)
+  Variable cons_s : conlist V.    (* multipliers / constraints / pairings at xs *)
+
+  Theorem approx_KKT_distance_inequality :
+    0 <= d ->
+    f x + df x xs + mu / 2 * (d * d) <= f xs ->          (* strong convexity at x, evaluated at xs *)
+    f xs + df xs x + mu / 2 * (d * d) <= f x ->          (* strong convexity at xs, evaluated at x *)
+    Rabs (df x xs - lagr_pairing V x cons xs) <= eg * d ->   (* |grad f(x) - sum lam_i grad c_i(x)| <= eg *)
+    mult_nonneg cons -> concave_cons V x cons -> feasible V cons xs ->
+    kkt_exact V df xs cons_s -> concave_cons V xs cons_s ->
+    mu * (d * d) <= eg * d + comp_slack cons + weighted_violation cons_s.
+  Proof.
+    intros Hd SCx SCs Hst Hl HC HF [HS HK] HCs.
+    pose proof (pairing_lower_at_x cons Hl HC HF) as P1.
+    pose proof (pairing_lower_at_xs cons_s HK HCs) as P2.
+    rewrite (HS x) in SCs. apply Rabs_le_between in Hst. lra.
+  Qed.
+
+  Theorem approx_KKT_is_near_min :
+    0 < mu -> 0 <= eg -> 0 <= d ->
+    f x + df x xs + mu / 2 * (d * d) <= f xs ->
+    f xs + df xs x + mu / 2 * (d * d) <= f x ->
+    Rabs (df x xs - lagr_pairing V x cons xs) <= eg * d ->
+    mult_nonneg cons -> concave_cons V x cons -> feasible V cons xs ->
+    kkt_exact V df xs cons_s -> concave_cons V xs cons_s ->
+    d <= (eg + sqrt (eg * eg + 4 * mu * (comp_slack cons + weighted_violation cons_s))) / (2 * mu).
+  Proof.
+    intros Hmu Heg Hd SCx SCs Hst Hl HC HF HKs HCs.
+    pose proof (approx_KKT_distance_inequality Hd SCx SCs Hst Hl HC HF HKs HCs) as Q.
+    pose proof (comp_slack_nonneg cons Hl) as S0.
+    assert (V0 : 0 <= weighted_violation cons_s).
+    { apply weighted_violation_nonneg. destruct HKs as [_ HK]. unfold mult_nonneg. eapply Forall_impl; [|exact HK].
+      intros [[lam c] dc]. tauto. }
+    set (T := comp_slack cons + weighted_violation cons_s) in *.
+    assert (HT : 0 <= eg * eg + 4 * mu * T) by nra.
+    set (s := sqrt (eg * eg + 4 * mu * T)).
+    assert (Hs : 0 <= s) by apply sqrt_pos.
+    assert (Hss : s * s = eg * eg + 4 * mu * T) by (apply sqrt_sqrt; exact HT).
+    apply Rmult_le_reg_r with (2 * mu); [lra|]. unfold Rdiv. rewrite Rmult_assoc, Rinv_l, Rmult_1_r by lra.
+    destruct (Rle_dec (d * (2 * mu)) (eg + s)) as [|N]; [assumption|exfalso].
+    assert (Hgt : s < 2 * mu * d - eg) by lra.
+    assert (s * s < (2 * mu * d - eg) * (2 * mu * d - eg)) by nra.
+    assert (0 < 4 * mu * (mu * (d * d) - eg * d - T)) by nra.
+    assert (0 < mu * (d * d) - eg * d - T) by nra. unfold T in *. lra.
+  Qed.
+End StrongConvex.
+
+(* the complementarity slack in terms of the min form that the termination test controls *)
+Lemma product_from_min c l k : 0 < k -> 0 <= c -> 0 <= l -> l * c = Rmin (c * k) l * Rmax (c * k) l / k.
+Proof.
+  intros Hk Hc Hl. unfold Rmin, Rmax. destruct (Rle_dec (c * k) l); field; lra.
+Qed.
+
+Example approx_KKT_nonvacuous :
+  (* min x^2 s.t. x - 1 >= 0: xs = 1 (lam* = 2); x = 1.1 with lam = 2.2 is an exact-stationary, complementarity-violating point *)
+  let x := 11 / 10 in let xs := 1 in
+  let cons := [(22 / 10, (fun y : R => y - 1), (fun y z : R => z - y))] in
+  let cons_s := [(2, (fun y : R => y - 1), (fun y z : R => z - y))] in
+  kkt_exact R (fun y z => 2 * y * (z - y)) xs cons_s /\ concave_cons R xs cons_s /\ concave_cons R x cons /\ feasible R cons xs
+  /\ mult_nonneg R cons /\ comp_slack R x cons = 22 / 100.
+Proof.
+  cbv zeta. repeat split.
+  - intros y. cbn [lagr_pairing]. lra.
+  - constructor; [cbn beta iota; repeat split; lra|constructor].
+  - constructor; [cbn beta iota; intros y; lra|constructor].
+  - constructor; [cbn beta iota; intros y; lra|constructor].
+  - constructor; [cbn beta iota; lra|constructor].
+  - constructor; [cbn beta iota; lra|constructor].
+  - cbn [comp_slack]. unfold Rmax. destruct (Rle_dec (11 / 10 - 1) 0); lra.
+Qed.
